@@ -30,6 +30,9 @@ let total = ref 0
 let kinds : (string, int) Hashtbl.t = Hashtbl.create 16
 (* at most 20 CASE lines per kind and process are printed; all are counted (COUNT lines) *)
 let report kind detail line =
+  (* known-finding classes are counted (and capped) separately, so that they never mask another failure *)
+  let kind = if String.length detail > 6 && String.sub detail 0 6 = "known:" then
+      kind ^ "/" ^ (match String.index_opt detail ' ' with Some i -> String.sub detail 0 i | None -> detail) else kind in
   let n = (try Hashtbl.find kinds kind with Not_found -> 0) in
   Hashtbl.replace kinds kind (n + 1);
   if n < 20 then Printf.printf "CASE\t%s\t%s\t%s\n" kind detail line
